@@ -175,6 +175,8 @@ theorem tlvLoop_inv (t : TagSpec) (enc : Enc) (isBer : Bool) (known : Tag → Bo
             | ok r3 =>
               obtain ⟨v, rd3⟩ := r3
               simp only [hdp] at h
+              split at h
+              · cases h
               refine ih _ _ _ _ _ ?_ h
               intro tg v' hl
               rw [lookup_insertKV] at hl
